@@ -9,6 +9,10 @@ import common  # noqa: E402
 
 
 def main():
+    # SDK log records that no harness handler takes would otherwise go to stderr through logging.lastResort and
+    # interleave with the verdict lines; a root NullHandler takes them (harness handlers and levels are unaffected)
+    import logging
+    logging.getLogger().addHandler(logging.NullHandler())
     ap = argparse.ArgumentParser()
     ap.add_argument("pid")
     ap.add_argument("--tier", default=os.environ.get("VERIF_TIER", "quick"), choices=["quick", "thorough"])
